@@ -187,6 +187,9 @@ fn main() {
 		if long_chain {
 			r.s.mine(1, 104);
 			r.refresh_all(0);
+			// (the owner-level update records the tip as the wallet's last scanned block)
+			let _ = guarded(|| owner::update_wallet_state(r.s.wallets[0].inst.clone(), None, &None, false));
+			r.refresh_all(0);
 			r.learn(0);
 		}
 		let batch = *r.p.pick(&[1u64, 2, 3, 5, 7, 1000]);
